@@ -36,7 +36,7 @@ def cases(tier, seed):
         yield f"C16|bler|partition|bs={bs}", {"kind": "partition", "metric": "bler", "bs": bs, "tier": tier}
     for dt in ("float32", "float64", "int64"):
         yield f"C16|bler|symbols|{dt}", {"kind": "symbols", "dtype": dt, "tier": tier}
-    for dt in ("float64", "float16", "bfloat16", "int64", "int32", "uint8", "bool"):
+    for dt in ("float32", "float64", "float16", "bfloat16", "int64", "int32", "int8", "uint8", "bool"):
         yield f"C16|dtypes|{dt}", {"kind": "dtypes", "dtype": dt, "tier": tier}
     Ls = range(1, 7) if tier == "quick" else range(1, 9)
     for L in Ls:
@@ -324,6 +324,23 @@ def dtypes_case(p, res):
                         if L == 1:
                             continue
                         X, Y = X.t().contiguous().t(), Y.t().contiguous().t()
+                    if view == "c":
+                        # the benchmark-side helpers on the same bits (both argument orders)
+                        from kaira.benchmarks.metrics import StandardMetrics
+                        for a_, b_, tag in ((X[0], Y[0], "x,y"), (Y[0], X[0], "y,x")):
+                            for hname, call, (e_, t_) in (("bit_error_rate", lambda: StandardMetrics.bit_error_rate(a_, b_), (d, L)),
+                                                          ("block_error_rate", lambda: StandardMetrics.block_error_rate(a_, b_, L), (1 if d else 0, 1)),
+                                                          ("block_error_rate(1)", lambda: StandardMetrics.block_error_rate(a_, b_, 1), (d, L))):
+                                try:
+                                    hv = float(call())
+                                except Exception:  # noqa: BLE001
+                                    res.rejected += 1
+                                    continue
+                                res.ev(1, nontrivial=1 if d else 0, transitions=1)
+                                if not close(hv, e_, t_):
+                                    nb += 1
+                                    if nb <= 4:
+                                        res.viol("helper", cfg, "helper-agrees", f"StandardMetrics.{hname}({tag}) on {p['dtype']} bits x={x} y={y}: {hv}, exact {e_}/{t_}", {"x": x, "y": y})
                     want = {"ber": (d, 2 * L), "bler": (1 if d else 0, 2), "bler1": (d, 2 * L)}
                     for name, mk in (("ber", lambda: make_metric("ber", None)), ("bler", lambda: make_metric("bler", None)), ("bler1", lambda: make_metric("bler", 1))):
                         e, t = want[name]
@@ -462,3 +479,24 @@ def oneshot_case(p, res):
                 res.rejected += 1
             res.ev(1, transitions=1)
     res.sample({"L": L, "pairs": len(vecs) ** 2, "block_sizes": divisors})
+
+
+# ----------------------------------------------------------------------------- spelling equivalence of the constructors behind this property
+# (positional / keyword / mixed spellings of one legal call configure the same object; shared helper kmc/spelling.py)
+_cases0, _execute0, _component0 = cases, execute, component_of
+
+
+def cases(tier, seed):  # noqa: F811
+    yield from _cases0(tier, seed)
+    yield f"{PID}|spelling", {"kind": "spelling", "tier": tier}
+
+
+def execute(p, res):  # noqa: F811
+    if p.get("kind") == "spelling":
+        from kmc import spelling
+        return spelling.run(PID, res)
+    return _execute0(p, res)
+
+
+def component_of(p):  # noqa: F811
+    return "spelling" if p.get("kind") == "spelling" else _component0(p)
